@@ -1,9 +1,11 @@
 import Blackbird.Props.C14
 import GenProps.C14
+import GenProps.C14ATN
 #print axioms Blackbird.C14_longest_match
 #print axioms Blackbird.C14_tie_break_examples
 #print axioms Blackbird.C14_any_rule_last
 #print axioms Blackbird.C14_sixty_one_token_kinds
+#print axioms Blackbird.C14_longest_is_longest_in_language
 #print axioms Blackbird.C14_lexer_atn_identical
 #print axioms Blackbird.C14_parser_atn_identical
 #print axioms Blackbird.C14_tokens_files_identical
@@ -13,3 +15,8 @@ import GenProps.C14
 #print axioms Blackbird.C14_tokens_match_grammar
 #print axioms Blackbird.C14_grammar_is_model_grammar
 #print axioms Blackbird.C14_model_token_kinds
+#print axioms Blackbird.C14_lexer_atn_decodes
+#print axioms Blackbird.C14_lexer_subautomata
+#print axioms Blackbird.C14_lexer_certificates
+#print axioms Blackbird.C14_lexer_rule_language
+#print axioms Blackbird.C14_token_rule_language
